@@ -78,7 +78,7 @@ func (reg *Registry[E]) ReadTagsFrom(r io.Reader) (int64, error) {
 		if length < 0 {
 			return n, errors.New("registry: negative tag length")
 		}
-		values := make([]*E, length)
+		var values []*E // grows as the ids arrive: the length comes from the peer
 
 		var id pk.VarInt
 		for i := 0; i < int(length); i++ {
@@ -92,7 +92,7 @@ func (reg *Registry[E]) ReadTagsFrom(r io.Reader) (int64, error) {
 				return n + n3, err
 			}
 
-			values[i] = &reg.values[id]
+			values = append(values, &reg.values[id])
 			n += n3
 		}
 
